@@ -107,7 +107,12 @@ def gen_recipe(rng):
         return m
 
     top = gen_module(0)
-    return {"sigs": sigs, "doms": doms, "top": top, "ports": "listed"}
+    recipe = {"sigs": sigs, "doms": doms, "top": top, "ports": "listed"}
+    used_at_top = sorted({st["dom"] for st in top["stmts"] if st["dom"] != "comb"})
+    if used_at_top and rng.random() < 0.2:
+        # the port list names the clock / reset of an (implicitly created) domain itself, late bound
+        recipe["clock_ports"] = [[rng.choice(["clk", "rst"]), d] for d in rng.sample(used_at_top, rng.randint(1, len(used_at_top)))]
+    return recipe
 
 
 def build_recipe(recipe):
@@ -242,6 +247,8 @@ def build_recipe(recipe):
     ports = None
     if recipe["ports"] == "listed":
         ports = list(sigs) + lib_ports
+        from amaranth.hdl import ClockSignal, ResetSignal
+        ports += [(ClockSignal if k == "clk" else ResetSignal)(d) for k, d in recipe.get("clock_ports", [])]
     return top, ports
 
 
